@@ -114,3 +114,7 @@ Proof.
   intros b; induction b as [|b IH]; intros l; [reflexivity|].
   destruct l; [rewrite !skipn_nil; reflexivity|]. simpl. apply IH.
 Qed.
+
+Lemma chunked_identity : forall (p : bytes) n, (0 < n)%nat ->
+  concat (chunks n p) = p /\ Forall (fun c => (length c <= n)%nat) (chunks n p).
+Proof. intros p n H. split; [apply chunks_concat; exact H|apply chunks_len]. Qed.
